@@ -625,6 +625,14 @@ def gen_mer(chk, n):
             hyp = [[(_mutate(rng, r, alphabet, eos, H) if rng.random() < 0.5 else _rand_seq(rng, H, alphabet, eos))
                     for _ in range(M)] for r in ref]
         logp = [[rng.randint(-2048, 2048) / 1024 for _ in range(M)] for _ in range(N)]
+        regime = rng.choice(["unit", "unit", "joint", "mixed", "far"])
+        if regime == "joint":     # joint log-probabilities of long hypotheses: every sample far below zero
+            off = rng.choice([-90, -150, -400, -1200])
+            logp = [[off + x for x in row] for row in logp]
+        elif regime == "mixed":   # one row ordinary, the others far below zero; samples within a row close together
+            logp = [[(0 if n == 0 else rng.choice([-120, -300])) + x for x in row] for n, row in enumerate(logp)]
+        elif regime == "far":     # samples of one row hundreds of nats apart (all weight on one sample)
+            logp = [[x * 100 for x in row] for row in logp]
         cases.append(dict(api="mer", module=rng.random() < 0.3, ref3=ref3, ref=ref, hyp=hyp, logp=logp, eos=eos,
                           include_eos=rng.random() < 0.5, norm=rng.random() < 0.5, batch_first=rng.random() < 0.5,
                           sub_avg=rng.random() < 0.5, reduction=rng.choice(["mean", "sum", "none", "none"]),
@@ -735,7 +743,7 @@ def run(chk, cases=None):
                         "is exact (regime E); the final division is one correctly rounded operation",
                         "loss: softmax, mean and products are float32 in the implementation and exact rationals in the "
                         "model (regime T, tolerance 5e-5; a wrong pairing of samples moves a value by >= 1e-3 in the "
-                        "generated cases); log_probs in [-2, 2]",
+                        "generated cases); log_probs in [-2, 2], shifted by -90..-1200 (joint/mixed regimes) or scaled by 100 (far regime)",
                         "zero-width tensors are in the input space only without eos (with eos _lens_from_eos raises)",
                         "the batch dimension of the model is a map over columns; independence across the batch is covered "
                         "by the correspondence and the single-column metamorphic relation",
